@@ -230,6 +230,35 @@ func RunPurge(opt Options, col *ev.Collector, label string) (cases int) {
 			}
 		}
 	}
+	// a restore purges too: restoring any existing checkpoint (older than, equal to or newer than the recorded
+	// snapshot) must leave the checkpoint named by the recorded snapshot index and all newer ones in place
+	for snapAt := 1; snapAt <= 4; snapAt++ {
+		for restoreAt := snapAt; restoreAt <= 5; restoreAt++ {
+			s.Reset()
+			os.RemoveAll(s.DB.GetBackupDir())
+			os.MkdirAll(s.DB.GetBackupDir(), 0o755)
+			s.DB.SetLatestSnapIndex(uint64(snapAt))
+			for b := 1; b <= 5; b++ {
+				s.Write(base+int64(b)*1e9, "rpush", "t:l", fmt.Sprint(b))
+				if b >= snapAt { // older ones would be purged by the backup itself
+					if err := s.backup(1, uint64(b)); err != nil {
+						panic(err)
+					}
+				}
+			}
+			cases++
+			if err := s.DB.Restore(1, uint64(restoreAt)); err != nil {
+				col.Add(ev.Violation{Property: "C14", Signature: "C14|purge|restore-failed", What: fmt.Sprintf("%s: keep=%d, snapshot recorded at %d, checkpoints %d..5: restore of %d fails: %v", label, opt.KeepBackup, snapAt, snapAt, restoreAt, err)})
+				continue
+			}
+			for k := snapAt; k <= 5; k++ {
+				if ok, _ := s.DB.IsLocalBackupOK(1, uint64(k)); !ok {
+					col.Add(ev.Violation{Property: "C14", Signature: "C14|purge|restore-removes-needed-checkpoint", What: fmt.Sprintf("%s: keep=%d, raft snapshot recorded at index %d, checkpoints %d..5: after restoring checkpoint %d the checkpoint %d is gone", label, opt.KeepBackup, snapAt, snapAt, restoreAt, k)})
+					break
+				}
+			}
+		}
+	}
 	return cases
 }
 
